@@ -117,7 +117,10 @@ def parse_place(c):
             else:
                 m = re.fullmatch(r'(\d+)(\.\.|:-)(\d+)', inner)
                 if m: p = Place(p.local, p.proj + (('subslice', int(m.group(1)), int(m.group(3)), m.group(2) == ':-'),))
-                else: raise SyntaxError("bad index %r" % inner)
+                else:
+                    m = re.fullmatch(r'(\d*):(-?)(\d*)', inner)       # `[:-1]`, `[1:]`, `[2:-1]`: sub-slices counted from the end
+                    if m and (m.group(2) or not m.group(3)): p = Place(p.local, p.proj + (('subslice', int(m.group(1) or 0), int(m.group(3) or 0), True),))
+                    else: raise SyntaxError("bad index %r" % inner)
     return p
 
 # ---------------------------------------------------------------- operands
@@ -347,6 +350,7 @@ class Body:
         self.raw = None
 
 ITEM_RE = re.compile(r'^(fn|const|static) (.*)$')
+STATIC_ALLOCS = {}        # alloc id -> name of the static it backs
 
 def split_items(text):
     """yield (kind, header_line, [body lines]) for each top-level item; also allocs"""
@@ -362,6 +366,8 @@ def split_items(text):
         m = re.match(r'^(?:const|static) (?:mut )?([\w:]+): ([^=]+) = const (.*);$', ln)
         if m:
             SIMPLE_CONSTS[m.group(1)] = m.group(3); i += 1; continue
+        ms_ = re.match(r'^alloc(\d+) \(static: ([\w:]+),', ln)
+        if ms_: STATIC_ALLOCS[int(ms_.group(1))] = ms_.group(2)
         m = re.match(r'^alloc(\d+) \(.*size: (\d+).*\) \{$', ln)
         if m:
             j = i + 1; data = []
